@@ -460,7 +460,8 @@ Inductive op : Type :=
 | OZigzag (z : Z)
 | OUnzigzag (x : N)
 | OScEnc (s : scalar) (v : sval)  (* a bare field type: pack, pack_sz, unpack *)
-| OScDec (s : scalar) (buf : list N).
+| OScDec (s : scalar) (buf : list N)
+| ORepack (m : msg) (buf : list N). (* M::unpack(buf), then stack_pack(&value).to_vec() *)
 
 Inductive out : Type :=
 | RBytes (r : res (list N)) (sz : N) (rt : option (res (val * list N)))
@@ -468,6 +469,7 @@ Inductive out : Type :=
 | RNum (r : res (N * list N))
 | RTag (r : res (N * wiretype * list N))
 | RInt (z : Z)
+| RRepack (r : res (list N * list N))
 | RIllTyped.
 
 Definition wt_of_bits (b : N) : wiretype :=
@@ -496,4 +498,6 @@ Definition run_op (o : op) : out :=
                (match r with Ok bs => Some (scalar_unpack_val s bs) | _ => None end)
       else RIllTyped
   | OScDec s buf => RVal (scalar_unpack_val s buf)
+  | ORepack m buf =>
+      RRepack ('(v, rest) <- msg_unpack m buf ;; bs <- msg_to_vec m v ;; Ok (bs, rest))
   end.
